@@ -108,6 +108,12 @@ strtoul(const char *s, char **end, int base)
 {
 	return (unsigned long) strtol(s, end, base);
 }
+unsigned long long
+strtoull(const char *s, char **end, int base)
+{
+	/* non-negative values that fit a long: all the encoded units feed it (Content-Length of a few digits) */
+	return (unsigned long long) strtol(s, end, base);
+}
 
 /* memmove with a symbolic length on an array inside a struct is modelled by
  * CBMC as a whole-object byte update (measured on url.c: 4.4M variables, 110 s
